@@ -52,6 +52,43 @@ def corr_with_canon(ctx, exe, label="corr", timeout=3000):
     return total == 0
 
 
+# Property-mode keys name stage/source/keyword class; a defect of the code shows up under many of
+# them.  For the verdict (and for known_findings.txt) they are folded into one key per cause.
+FAMILIES = [
+    (r"\.alldefault_record$", "C19.alldefault_record"),
+    (r"\.all_item_trailing_default$", "C19.all_item_trailing_default"),
+    (r"\.after_pending_default$", "C19.title_after_pending_default"),
+    (r"^C19\.reparse\.\w+\.CODE\.err", "C19.code_keyword_end_token"),
+    (r"\.double_overflow$", "C19.double_overflow"),
+    (r"^C01\.relayout\.\w+\.star_contract_qblank\.", "C01.star_quoted_blank"),
+    (r"^C01\.relayout\.\w+\.\w+\.differs\.CODE$", "C01.code_block_followed_by_code_keyword"),
+]
+
+
+def fold_keys(ctx):
+    import re
+    for v in ctx.violations:
+        for pat, fam in FAMILIES:
+            if re.search(pat, v["key"]):
+                v["detail"] = f"[{v['key']}] " + v["detail"]
+                if isinstance(v.get("payload"), dict):
+                    v["payload"]["harness_key"] = v["key"]
+                v["key"] = fam
+                break
+    # one violation per key (the first instance carries the replay detail)
+    seen, kept = {}, []
+    for v in ctx.violations:
+        if v["key"] in seen:
+            seen[v["key"]]["more"] = seen[v["key"]].get("more", 0) + 1
+        else:
+            seen[v["key"]] = v
+            kept.append(v)
+    for v in kept:
+        if v.get("more"):
+            v["detail"] += f"  (+{v.pop('more')} more instances of this key in this run)"
+    ctx.violations[:] = kept
+
+
 def run(ctx, prop_mode):
     ctx.assumptions += [
         "default ParseContext (PARSE_EXTRA_DATA etc. throw); errors are compared by class only (returned / std::exception)",
@@ -74,6 +111,7 @@ def run(ctx, prop_mode):
     # concrete failing input when a proof or the correspondence broke.
     if okp:
         ctx.stage_property_mode(exep, [prop_mode, ctx.seed, ctx.tier])
+        fold_keys(ctx)
     return ctx.finish(trusted_base=TRUSTED)
 
 
